@@ -283,9 +283,11 @@ ADDED = {
     'C17': 'Later additions: complete (N 0..130 x nthread 1..16) sweep, weight dtype independent of the position dtype, the '
            'same arrays edited in place and partitioned again with identical arguments, array memory layouts.',
     'C19': 'Later additions: lengths 2^k-1, 2^k, 2^k+1 up to 2^20 (2^21 thorough) x flags x 1/3/16 numba threads, strided and '
-           'read-only inputs, strided outputs (the slots in between must stay untouched).',
+           'read-only inputs, strided outputs (the slots in between must stay untouched); uint64 outputs whose partial sums '
+           'all lie beyond 2^63, compared as integers.',
     'C20': 'Later additions: columns of 4..10 MiB, fields requested twice, big-endian stored columns, the same paths piped '
-           'once with other contents before the files are rewritten.',
+           'once with other contents before the files are rewritten; an always-run sweep of columns of exactly 2^20..2^25 '
+           'bytes (and 24 MiB, 16 MiB multi-dimensional) in one file.',
 }
 for _k, _v in ADDED.items():
     CHECKS[_k]['text'] = CHECKS[_k]['text'].rstrip() + ' ' + _v
